@@ -165,7 +165,7 @@ var c16OptionSets = []struct {
 }
 
 func c16ReadOnly(r *vf.Run) {
-	n := r.Pick(24, 100)
+	n := r.Pick(24, 500)
 	var ids []string
 	for i := 0; i < n; i++ {
 		ids = append(ids, fmt.Sprintf("read%02d", i))
